@@ -116,3 +116,104 @@ Example C13_link_partial_instance :
   = Some [(1%nat, 0, 5); (3%nat, 1, 5); (5%nat, 2, 5); (2%nat, 3, 0); (6%nat, 3, 5);
           (0%nat, 4, 5); (8%nat, 4, 0); (4%nat, 5, 5); (7%nat, 5, 0)].
 Proof. exact link_partial_instance. Qed.
+
+(* ==== route T: the same theorems about the functions GENERATED from the current
+   text of trackpy/linking/partial.py (Gen/partial.v, written by
+   tools/py2coq_partial.py on every run of the check; vocabulary and the list of
+   pandas / itertools primitives in Model/PyPartial.v).
+   Python dicts are insertion-ordered with in-place replacement; Python sets are
+   duplicate-free lists.  The source iterates over a set exactly once
+   (zip(remaining, gen_ids)); its iteration order is the explicit parameter [ord]
+   of the generated functions, and the theorems hold for EVERY order (every
+   [ord] that returns a permutation of its argument). ==== *)
+From TP Require Import Model.PyPartial Model.Partial2 Proofs.Partial2.
+From TP Require Gen.partial.
+
+(* the generated reconnect_traj_patch, run with the model's iteration order, IS
+   the hand-written model [reconnect] -- on every table, every range (also
+   start >= stop: both raise), provided the in-range ids of the rows of the first
+   frame that carry a non-negative old label are pairwise distinct (C01; without
+   it Python's dict drops an overwritten old id from `claimed` and the model's
+   association list does not) *)
+Theorem C13_gen_reconnect_equals_model : forall (T : list row) (s e : Z),
+  NoDup (map fst (filter (fun po => negb (snd po <? 0)) (pairs_at s T))) ->
+  Gen.partial.reconnect_traj_patch (fun l => l) T (s, e) = reconnect T s e.
+Proof. exact gen_reconnect_eq_model. Qed.
+Print Assumptions C13_gen_reconnect_equals_model.
+
+(* for any iteration order it is [reconnect] with the fresh ids handed to the
+   leftover in-range tracks in that order (Model/Partial2.v, reconnect_ord) *)
+Theorem C13_gen_reconnect_equals_model_any_order : forall (ord : list Z -> list Z) (T : list row) (s e : Z),
+  (forall l, Permutation (ord l) l) ->
+  NoDup (map fst (filter (fun po => negb (snd po <? 0)) (pairs_at s T))) ->
+  Gen.partial.reconnect_traj_patch ord T (s, e) = reconnect_ord ord T s e.
+Proof. exact gen_reconnect_eq. Qed.
+Print Assumptions C13_gen_reconnect_equals_model_any_order.
+
+(* C13_reconnect_valid_and_joined, about the generated function, for every
+   iteration order of the set `remaining` *)
+Theorem C13_gen_reconnect_valid_and_joined : forall (ord : list Z -> list Z) (T : list row) (s e : Z),
+  (forall l, Permutation (ord l) l) ->
+  NoDup (map rid T) -> s < e -> valid_old T -> valid_new T s e -> untouched_outside T s e ->
+  exists out, Gen.partial.reconnect_traj_patch ord T (s, e) = POk out /\
+    map rid out = map rid T /\ map frame out = map frame T /\ map oldp out = map oldp T /\
+    (forall r l, In (r, l) (labelled T (map part out)) -> before s r -> l = oldp r) /\
+    labels_unique_per_frame T (map part out) /\
+    share_label_iff_joined T s e (map part out) /\
+    outside_grouping_kept T s e (map part out).
+Proof. exact gen_reconnect_correct. Qed.
+Print Assumptions C13_gen_reconnect_valid_and_joined.
+
+(* the generated link_partial, for ALL inputs: full_range, assert, clamping, sort,
+   copy of the labels when the range is partial, the loop over link_iter with its
+   mask assignment (empty id lists skipped, wrong length raises), then the
+   generated reconnect_traj_patch -- i.e. the model's link_partial with that
+   reconnection step plugged in (Model/Partial2.v, link_partial2) *)
+Theorem C13_gen_link_partial_structure : forall (ord : list Z -> list Z) (linker : Z -> list Z) (f : list row) (a b : Z),
+  Gen.partial.link_partial ord linker f (a, b)
+  = link_partial2 (fun t s e => Gen.partial.reconnect_traj_patch ord t (s, e)) f (a, b) linker.
+Proof. exact gen_link_partial_unfold. Qed.
+Print Assumptions C13_gen_link_partial_structure.
+
+(* under the hypotheses of C13_link_partial, the generated link_partial with the
+   model's iteration order IS the hand-written model *)
+Theorem C13_gen_link_partial_equals_model : forall (f : list row) (a b : Z) (linker : Z -> list Z) (lo hi : Z),
+  frame_span f = Some (lo, hi) -> a < b -> a < hi -> lo < b ->
+  NoDup (map rid f) -> (forall r, In r f -> oldp r = part r) -> valid_old f ->
+  valid_linker f (Z.max a lo) (Z.min b hi) linker ->
+  Gen.partial.link_partial (fun l => l) linker f (a, b) = Model.Partial.link_partial f (a, b) linker.
+Proof. exact gen_link_partial_eq_model_valid. Qed.
+Print Assumptions C13_gen_link_partial_equals_model.
+
+(* C13_link_partial, about the generated function, for every iteration order *)
+Theorem C13_gen_link_partial : forall (ord : list Z -> list Z) (f : list row) (a b : Z) (linker : Z -> list Z) (lo hi : Z),
+  (forall l, Permutation (ord l) l) ->
+  frame_span f = Some (lo, hi) -> a < b -> a < hi -> lo < b ->
+  NoDup (map rid f) -> (forall r, In r f -> oldp r = part r) -> valid_old f ->
+  valid_linker f (Z.max a lo) (Z.min b hi) linker ->
+  exists T out,
+    relinked lo hi (sort_rows f) (a, b) linker = Some T /\
+    Gen.partial.link_partial ord linker f (a, b) = POk out /\
+    Permutation (map key_out T) (map key_out f) /\
+    StronglySorted Z.le (map frame T) /\
+    (forall i, Z.max a lo <= i < Z.min b hi -> map part (filter (fun r => frame r =? i) T) = linker i) /\
+    untouched_outside T (Z.max a lo) (Z.min b hi) /\
+    map key_out out = map key_out T /\
+    (forall r l, In (r, l) (labelled T (map part out)) -> before (Z.max a lo) r -> l = oldp r) /\
+    labels_unique_per_frame T (map part out) /\
+    share_label_iff_joined T (Z.max a lo) (Z.min b hi) (map part out) /\
+    outside_grouping_kept T (Z.max a lo) (Z.min b hi) (map part out).
+Proof. exact gen_link_partial_correct. Qed.
+Print Assumptions C13_gen_link_partial.
+
+(* non-vacuity / execution: the generated functions run; on the F4 witness they
+   give the implementation's labels, also with the leftover tracks visited in
+   reverse order (the labels then differ by a renaming of fresh ids at most) *)
+Example C13_gen_runs_F4 :
+  option_map (map part) (match Gen.partial.reconnect_traj_patch (fun l => l) F4_table (1, 5) with POk o => Some o | _ => None end)
+  = Some [5; 5; 5; 0; 5; 0; 5; 0; 5] /\
+  option_map (map (fun r => (rid r, frame r, part r)))
+     (match Gen.partial.link_partial (@rev Z) F4_linker F4_input (1, 5) with POk o => Some o | PRaises _ => None end)
+  = Some [(1%nat, 0, 5); (3%nat, 1, 5); (5%nat, 2, 5); (2%nat, 3, 0); (6%nat, 3, 5);
+          (0%nat, 4, 5); (8%nat, 4, 0); (4%nat, 5, 5); (7%nat, 5, 0)].
+Proof. vm_compute. split; reflexivity. Qed.
